@@ -272,6 +272,10 @@ func mergeExtra(pk map[string]any, k string, v any) {
 		return
 	}
 	switch a := old.(type) {
+	case string:
+		if b, ok := v.(string); ok && b != a && !strings.Contains(a, b) {
+			pk[k] = a + " | " + b
+		}
 	case float64:
 		if b, ok := v.(float64); ok {
 			pk[k] = a + b
